@@ -24,13 +24,14 @@ KA = [W.PASS, W.FAIL, W.ERROR, W.XPASS, W.SKIP_BODY, W.XFAIL, W.SUBFAIL2, W.ERR_
 KB = [W.PASS, W.FAIL, W.ERROR, W.SKIP_BODY]
 
 
-def counts(mode, ka, kb, sk, imp, su, td, rep2, verbose, strict, nl):
+def counts(mode, ka, kb, sk, imp, su, td, rep2, verbose, strict, nl, fault=0):
     global LAST
     mode = pick(FR.MODES, mode)
     ka, kb = pick(KA, ka), pick(KB, kb)
     sk, imp, rep2, strict, nl = cb(sk), cb(imp), cb(rep2), cb(strict), cb(nl)
     su, td = ci(su, 0, 2), ci(td, 0, 2)
     verbose = ci(verbose, 0, 2)
+    fault = ci(fault, 0, 1)          # 1: every layer subprocess dies without delivering its report
     with untraced():
         tdd = {}
         if td == 1:
@@ -44,14 +45,14 @@ def counts(mode, ka, kb, sk, imp, su, td, rep2, verbose, strict, nl):
         world = FR.World(kinds, su=sud, td=tdd, imp=imp, order=['b0', 'a0', 'b1', 'a1'],
                          strnames={'a1': 'a1 first line\nsecond line', 'b0': 'b0\n(w.T_b0)'} if nl else None)
     argv = (['--repeat', '2'] if rep2 else []) + (['-' + 'v' * verbose] if verbose else [])
-    res = FR.run(world, mode, argv=argv)
+    res = FR.run(world, mode, argv=argv, fault=('no_report',) if fault else None)
     with untraced():
-        why, summ = oracle(res, world, kinds, mode, imp, su, td, rep2, verbose, strict)
-    LAST = (mode, W.KIND_NAMES[ka], W.KIND_NAMES[kb], sk, imp, su, td, rep2, verbose, why, summ, strict, nl)
+        why, summ = oracle(res, world, kinds, mode, imp, su, td, rep2, verbose, strict, fault)
+    LAST = (mode, W.KIND_NAMES[ka], W.KIND_NAMES[kb], sk, imp, su, td, rep2, verbose, why, summ, strict, nl, fault)
     return why is None
 
 
-def oracle(res, world, kinds, mode, imp, su, td, rep2, verbose, strict):
+def oracle(res, world, kinds, mode, imp, su, td, rep2, verbose, strict, fault=0):
     if res.escaped:
         return 'exception %s escaped from Runner.run' % res.escaped, None
     if res.thread_exc:
@@ -93,10 +94,13 @@ def oracle(res, world, kinds, mode, imp, su, td, rep2, verbose, strict):
     # ---- totals
     # strict: every execution counts (the property's literal reading).  not strict: the 'tests' figure of the
     # total counts one iteration, as upstream's testrunner-repeat.rst documents; everything else accumulates.
-    tot_n = sum(v[0] for v in exp_layers.values()) * (rep if strict else 1)
-    tot_f = sum(v[1] for v in exp_layers.values()) * rep
-    tot_e = sum(v[2] - (1 if imp else 0) for v in exp_layers.values()) * rep + (1 if imp else 0)
-    tot_s = sum(v[3] for v in exp_layers.values()) * rep
+    # layers whose subprocess died without a report contribute nothing but one error each
+    lost = {c['layer'] for c in res.children} if fault else set()
+    counted = {k: v for k, v in exp_layers.items() if k not in lost}
+    tot_n = sum(v[0] for v in counted.values()) * (rep if strict else 1)
+    tot_f = sum(v[1] for v in counted.values()) * rep
+    tot_e = sum(v[2] - (1 if imp else 0) for v in counted.values()) * rep + (1 if imp else 0)
+    tot_s = sum(v[3] for v in counted.values()) * rep
     layer_fail = 0
     setups = [e2[2] for e2 in res.trace if e2[1] == 'su']
     tds = [e2[2] for e2 in res.trace if e2[1] == 'td']
@@ -108,7 +112,10 @@ def oracle(res, world, kinds, mode, imp, su, td, rep2, verbose, strict):
         layer_fail += tds.count('A')
     if td == 2:
         layer_fail += tds.count('B')
-    tot_e += layer_fail
+    if fault:           # tearDown / setUp failures inside a lost child are lost with it; the parent records the child
+        layer_fail = sum(1 for e2 in res.trace if e2[0] == 0 and ((e2[1] == 'su' and ((su == 1 and e2[2] == 'A') or (su == 2 and e2[2] == 'B')))
+                                                                   or (e2[1] == 'td' and ((td == 1 and e2[2] == 'A' and mode != 'nie') or (td == 2 and e2[2] == 'B')))))
+    tot_e += layer_fail + (len(res.children) if fault else 0)
     exp_total = (tot_n, tot_f, tot_e, tot_s)
     if parsed['total'] is None:
         return 'no Total line', None
@@ -125,7 +132,7 @@ def oracle(res, world, kinds, mode, imp, su, td, rep2, verbose, strict):
             return 'Tests with errors lists %r, %d error events happened' % (en, tot_e - (1 if imp else 0)), None
         for t, k in kinds.items():
             L = world.layer_of(t)
-            if 'w.' + L not in exp_layers:
+            if 'w.' + L not in counted:
                 continue
             nf = (W.N_FAIL.get(k, 0) + (1 if k == W.XPASS else 0)) * rep
             ne = W.N_ERR.get(k, 0) * rep
@@ -133,6 +140,8 @@ def oracle(res, world, kinds, mode, imp, su, td, rep2, verbose, strict):
                 return 'test %s listed %d times under failures, failed %d times: %r' % (t, sum(1 for x in fn if x.split(' ')[0] == t), nf, fn), None
             if sum(1 for x in en if x.split(' ')[0] == t) != ne:
                 return 'test %s listed %d times under errors, errored %d times: %r' % (t, sum(1 for x in en if x.split(' ')[0] == t), ne, en), None
+        if fault and sum(1 for x in en if x.startswith('subprocess for ')) != len(res.children):
+            return 'lost subprocesses listed %r, %d children died' % ([x for x in en if x.startswith('subprocess')], len(res.children)), None
         if sum(1 for x in en if x.startswith('Layer: ')) != layer_fail:
             return 'layer failures listed %r, happened %d' % ([x for x in en if x.startswith('Layer: ')], layer_fail), None
     return None, (exp_total, tuple(sorted(exp_layers.items())))
@@ -165,15 +174,15 @@ def linear(c0, c1, c2, k1):
     return ok
 
 
-_P = [('mode', 'int'), ('ka', 'int'), ('kb', 'int'), ('sk', 'bool'), ('imp', 'bool'), ('su', 'int'), ('td', 'int'), ('rep2', 'bool'), ('verbose', 'int'), ('strict', 'bool'), ('nl', 'bool')]
+_P = [('mode', 'int'), ('ka', 'int'), ('kb', 'int'), ('sk', 'bool'), ('imp', 'bool'), ('su', 'int'), ('td', 'int'), ('rep2', 'bool'), ('verbose', 'int'), ('strict', 'bool'), ('nl', 'bool'), ('fault', 'int')]
 _C = ', '.join(n for n, _ in _P)
-_B = '(rep2 or strict) and 0 <= mode < 5 and 0 <= ka < %d and 0 <= kb < %d and 0 <= su <= 2 and 0 <= td <= 2 and 0 <= verbose <= 2' % (len(KA), len(KB))
-_Q = _B + ' and (not nl or (not rep2 and not sk and not imp and su == 0 and td == 0)) and verbose == 1 and kb <= 1 and (imp + (su != 0) + (td != 0) <= 1) and (not rep2 or (not imp and su == 0 and td == 0))'
+_B = '0 <= fault <= 1 and (fault == 0 or (mode != 0 and mode != 3 and not rep2)) and (rep2 or strict) and 0 <= mode < 5 and 0 <= ka < %d and 0 <= kb < %d and 0 <= su <= 2 and 0 <= td <= 2 and 0 <= verbose <= 2' % (len(KA), len(KB))
+_Q = _B + ' and (fault == 0 or (not nl and not sk and not imp and su == 0 and td == 0)) and (verbose == 1 or fault == 1) and (not nl or (not rep2 and not sk and not imp and su == 0 and td == 0)) and kb <= 1 and (imp + (su != 0) + (td != 0) <= 1) and (not rep2 or (not imp and su == 0 and td == 0))'
 _T = _B
 
 
 def _v(**kw):
-    v = dict(mode=0, ka=0, kb=0, sk=False, imp=False, su=0, td=0, rep2=False, verbose=1, strict=True, nl=False)
+    v = dict(mode=0, ka=0, kb=0, sk=False, imp=False, su=0, td=0, rep2=False, verbose=1, strict=True, nl=False, fault=0)
     v.update(kw)
     return v
 
@@ -199,7 +208,7 @@ SPEC = {
          'reach': 'counts_reach', 'reach_bounds': {'quick': _B + ' and ka == 1 and su == 0 and td == 0 and not imp and verbose == 1',
                                                    'thorough': _B + ' and ka == 1 and su == 0 and td == 0 and not imp and verbose == 1'},
          'timeout': {'quick': 400, 'thorough': 1700},
-         'fidelity': [_v(), _v(mode=1, ka=6, sk=True), _v(mode=2, ka=3, imp=True, verbose=2), _v(ka=7, rep2=True, kb=1, strict=False), _v(mode=4, su=1, td=2, verbose=0), _v(mode=1, ka=1, kb=2, nl=True)]},
+         'fidelity': [_v(), _v(mode=1, ka=6, sk=True), _v(mode=2, ka=3, imp=True, verbose=2), _v(ka=7, rep2=True, kb=1, strict=False), _v(mode=4, su=1, td=2, verbose=0), _v(mode=1, ka=1, kb=2, nl=True), _v(mode=1, ka=2, fault=1, verbose=0), _v(mode=2, kb=1, fault=1)]},
         {'name': 'linear', 'fn': 'linear', 'params': [('c0', 'int'), ('c1', 'int'), ('c2', 'int'), ('k1', 'int')], 'call': 'c0, c1, c2, k1',
          'bounds': {'quick': 'c0 >= 0 and c1 >= 0 and c2 >= 0 and 0 <= k1 < 4', 'thorough': 'c0 >= 0 and c1 >= 0 and c2 >= 0 and 0 <= k1 < 4'},
          'timeout': {'quick': 120, 'thorough': 300},
